@@ -739,7 +739,7 @@ def explore(tier, seed):
                     cases.append(dict(backend=be, src=src, dst=dst, relation=rel, fn="copy_file_if", file=p, cond=c,
                                       preserve_time=rnd.random() < 0.5))
     # ---- source and destination are the same filesystem object
-    n_same = 90 if thorough else 9
+    n_same = 60 if thorough else 9
     same_pairs = [(hand_src, pairs[1][1], "overlapping"), (hand_src, {}, "empty")]
     for i in range(n_same):
         rel = ["empty", "disjoint", "overlapping", "overlapping", "conflicting"][i % 5]
